@@ -349,6 +349,52 @@ func (s *Session) c20Obligations() []*Obligation {
 		}
 		out = append(out, ob)
 	}
+	// the flag set itself holds the key (the flag cell is bound to it): reading flag VALUES through the flag set (Visit, Lookup,
+	// GetString, Flag.Value ...) would reach the key without touching the bound variable the taint starts from
+	{
+		ob := &Obligation{Name: "flow/package:flag-values-are-read-only-through-their-bound-variables", Fn: "main", Kind: "flow", Props: []string{"C20"}, Backend: "flow", Result: "unsat",
+			Clause: "no function of package main reads flag values through the pflag API (FlagSet.Visit / VisitAll / Lookup / Get*, Flag.Value, Value.String; usage texts print the registered defaults only): the private key is reachable only through its bound variable, which the flow clause follows"}
+		var lines []string
+		for _, n := range names {
+			fn := s.fns[n]
+			if fn == nil || fn.Blocks == nil {
+				continue
+			}
+			for _, b := range fn.Blocks {
+				for _, in := range b.Instrs {
+					switch x := in.(type) {
+					case ssa.CallInstruction:
+						c := x.Common()
+						name := ""
+						if cal := c.StaticCallee(); cal != nil {
+							name = cal.String()
+						} else if c.IsInvoke() {
+							name = c.Value.Type().String() + "." + c.Method.Name()
+						}
+						if !strings.Contains(name, "spf13/pflag") {
+							continue
+						}
+						m := name[strings.LastIndex(name, ".")+1:]
+						if m == "Visit" || m == "VisitAll" || m == "Lookup" || m == "ShorthandLookup" || strings.HasPrefix(m, "Get") || m == "String" {
+							lines = append(lines, fmt.Sprintf("%s: %s calls %s", s.posOf(in.Pos()), n, name))
+						}
+					case *ssa.FieldAddr:
+						if pt, ok := x.X.Type().Underlying().(*types.Pointer); ok && strings.Contains(pt.Elem().String(), "spf13/pflag.Flag") {
+							if st, ok := pt.Elem().Underlying().(*types.Struct); ok {
+								if f := st.Field(x.Field).Name(); f == "Value" {
+									lines = append(lines, fmt.Sprintf("%s: %s reads pflag.Flag.%s", s.posOf(in.Pos()), n, f))
+								}
+							}
+						}
+					}
+				}
+			}
+		}
+		if len(lines) > 0 {
+			ob.Result, ob.Raw = "sat", strings.Join(lines, "\n")
+		}
+		out = append(out, ob)
+	}
 	// structural anchors: the functions that are supposed to hold the key exist and receive it
 	for _, n := range []string{"(*AtlasClient).getAtlasClusterInfo", "(*AtlasClient).downloadClusterLogsForHost", "(*AtlasClient).DownloadClusterLogs", "main$1"} {
 		if s.fns[n] == nil {
